@@ -58,10 +58,15 @@ def gen_case(r, index, tier):
                 m.pop("center", None)
     ntr = r.weighted([(0, 1), (1, 4), (2, 2), (3, 1), (4, 1)])
     trials = []
+    # the same netlist is also placed on a second, larger die in the same process (a flow that tries several die shapes):
+    # the order of the layouts is part of the schedule
+    alt = None
+    if r.chance(0.5):
+        alt = [W * r.choice([1, 2, 2, 3]), H * r.choice([1, 2, 3])]
     for _ in range(r.randint(4, 10)):
         mode = r.weighted([("mt", 7), ("lowent", 3)])
-        trials.append({"seed": r.below(1 << 31), "mode": mode, "bits": r.randint(0, 3)})
-    return {"engine": "c14", "die": die, "net": nl, "nfloorplans": ntr, "trials": trials}
+        trials.append({"seed": r.below(1 << 31), "mode": mode, "bits": r.randint(0, 3), "alt": bool(alt) and r.chance(0.4)})
+    return {"engine": "c14", "die": die, "net": nl, "nfloorplans": ntr, "trials": trials, "alt_die": alt}
 
 
 def units(case):
@@ -161,9 +166,16 @@ def run_case(case):
     good = 0
     tol = 1e-9 * max(W, H)
     sig.append(digest(tree))
+    W0, H0 = W, H
     for t in case["trials"]:
         ops["layout"] = ops.get("layout", 0) + 1
         mode = t["mode"]
+        if t.get("alt") and case.get("alt_die"):
+            W, H = co.f(case["alt_die"][0]), co.f(case["alt_die"][1])
+            probe("layout_on_second_die")
+        else:
+            W, H = W0, H0
+        tol = 1e-9 * max(W, H)
         configured[mode] = configured.get(mode, 0) + 1
         rnd = SimRandom(t["seed"], mode, t.get("bits", 2))
         SA.random = rnd
